@@ -511,7 +511,7 @@ func runSemPass1(cx *Ctx, carried []absint.CarriedLoc) (rs *runSem, changed []ab
 		}
 		switch {
 		case strings.HasPrefix(a, "loop1.mem("):
-			// the order of a header test and the cancellation test: judged below on the composed decisions
+			// a header test may come before the cancellation test (for !cpu.HALT { poll }): judged just below
 		case strings.HasPrefix(a, "PostStep") || strings.HasPrefix(a, "Init("):
 			rs.violations = append(rs.violations, "whether an iteration Steps depends on CPU state ("+a+"): zero Steps or a skipped Step become possible")
 		case !obs:
@@ -522,6 +522,17 @@ func runSemPass1(cx *Ctx, carried []absint.CarriedLoc) (rs *runSem, changed []ab
 	}
 	if cancel != bdd.False && !freshObs {
 		rs.violations = append(rs.violations, "the cancellation state is not re-read inside the loop")
+	}
+	// among the iterations that get past the tests of the loop header, whether the
+	// cancellation is honoured depends on the observation only - not on the CPU
+	// (a poll made only when some register has a certain value skips iterations)
+	reachPoll := M.And(entry, M.Not(preExit))
+	if cancel != bdd.False && reachPoll != bdd.False {
+		for _, a := range c.AtomsIn(M.Constrain(cancel, reachPoll)) {
+			if strings.HasPrefix(a, "loop1.mem(") || strings.HasPrefix(a, "PostStep") || strings.HasPrefix(a, "Init(") {
+				rs.violations = append(rs.violations, "whether an iteration tests cancellation depends on CPU state ("+a+"): iterations can go by without observing a cancellation")
+			}
+		}
 	}
 	// whenever the iteration neither returns early nor is cancelled, it Steps
 	say(M.Xor(gStep, notCancel), "an iteration that is not cancelled must Step")
